@@ -34,6 +34,8 @@ type Fault struct {
 	// Arg, when set, replaces K: every invocation of site ID whose argument
 	// renders as Arg fails (schedule-independent fault placement).
 	Arg string `json:"arg,omitempty"`
+	// Persistent: the site fails on its K-th invocation and on every later one (the function stays broken)
+	Persistent bool `json:"persistent,omitempty"`
 }
 
 type StubPlan struct {
@@ -73,15 +75,15 @@ type Client struct {
 }
 
 type Case struct {
-	Prop    string            `json:"prop"`
-	Note    string            `json:"note,omitempty"`
-	Sim     SimConfig         `json:"sim"`
-	Docs    []json.RawMessage `json:"docs"`
-	Vars    []map[string]any  `json:"vars,omitempty"`
+	Prop string            `json:"prop"`
+	Note string            `json:"note,omitempty"`
+	Sim  SimConfig         `json:"sim"`
+	Docs []json.RawMessage `json:"docs"`
+	Vars []map[string]any  `json:"vars,omitempty"`
 	// SharedConstants: one constants map handed to every op that sets ConstShared (callers share configuration)
 	SharedConstants map[string]any `json:"shared_constants,omitempty"`
 	Clients         []Client       `json:"clients"`
-	Stubs   StubPlan          `json:"stubs"`
+	Stubs           StubPlan       `json:"stubs"`
 	// NativeInts: build integral JSON numbers of these docs as Go int instead of float64
 	NativeInts bool `json:"native_ints,omitempty"`
 	// NativeIntKeys: like NativeInts, but only below these top-level keys of each doc (mixing int and float64 tables)
@@ -119,7 +121,7 @@ type OpObs struct {
 	SeqReturn    int64           `json:"seq_return"`
 	StepReturn   int64           `json:"step_return"`
 	SimNsReturn  int64           `json:"sim_ns_return"`
-	Exec2        string          `json:"exec2,omitempty"`     // outcome of the second Exec on the same Query: "ok" | "err: ..." | "panic: ..."
+	Exec2        string          `json:"exec2,omitempty"` // outcome of the second Exec on the same Query: "ok" | "err: ..." | "panic: ..."
 	Rows2        json.RawMessage `json:"rows2,omitempty"`
 	Reported     []string        `json:"reported,omitempty"` // errors delivered to the UnReportedErrors callback
 	Completed    int             `json:"completed"`          // CompletedCallback invocations
